@@ -442,7 +442,25 @@ pub fn c16(rep: &mut Report, scratch: &std::path::Path, rng: &mut Rng, corpora: 
                         let max_per_frame = frames.iter().map(|f| single_seq.iter().filter(|h| h.0 == *f).count()).max().unwrap_or(0);
                         // the slicer stops as soon as it has top_k snippets of a document, so a document with exactly top_k snippets can
                         // already differ (a later occurrence no longer extends its last snippet): the cap is out of play only below that
-                        let over = match (frames.len() > 20, max_per_frame >= page) {
+                        // the limit applies to Tantivy's candidate documents, of which the post-evaluation may cull some (a phrase or an
+                        // AND query retrieves every document with one of the words): bound them from above by the active frames whose
+                        // searchable text holds any word of the query; a query without words is counted as unbounded
+                        let mut qwords: Vec<String> = Vec::new();
+                        q.words(&mut qwords);
+                        let qtokens: Vec<String> = qwords.iter().flat_map(|w| w.split_whitespace().map(|t| t.to_lowercase()).collect::<Vec<_>>()).collect();
+                        let candidates_upper = if qtokens.is_empty() { usize::MAX } else {
+                            let n = w.mem().frame_count() as u64;
+                            let mut c = 0usize;
+                            for id in 0..n {
+                                if let Ok(f) = w.mem().frame_by_id(id) {
+                                    if f.status != FrameStatus::Active { continue; }
+                                    let t = searchable_text(w.mem.as_mut().unwrap(), &f);
+                                    if qtokens.iter().any(|tok| t.contains(tok.as_str())) { c += 1; }
+                                }
+                            }
+                            c
+                        };
+                        let over = match (frames.len() > 20 || candidates_upper > 20, max_per_frame >= page) {
                             (true, _) => "more-frames-than-candidate-limit",
                             (false, true) => "within-candidate-limit:snippet-cap-binding",
                             (false, false) => "within-candidate-limit:snippet-cap-not-binding",
